@@ -21,6 +21,7 @@
 -/
 import Gedcom.Lemmas.EqualLaws
 import Gedcom.Lemmas.Ident
+import Gedcom.Lemmas.CopyDoc
 namespace Gedcom.C07
 open Gedcom
 
@@ -29,9 +30,10 @@ open Gedcom
 /-- FULL.  Every tree is deep-equal to a deep copy of itself, whatever the node kinds involved
     (plain, BIRT/DEAT/BURI/BAPM, RESI, EVEN, DATE incl. phrases and unparsable values, _UID incl.
     malformed ids — the latter only after the repair of `UniqueIDNode.Equals`). -/
-theorem deepEqual_copy (next : Nat) (t c : INode) (n : Nat) (w : List Nat) (f : List Str)
-    (h : deepCopy next t = .ok c n w f) : deepEqual t.erase c.erase = true := by
-  unfold deepCopy at h
+theorem deepEqual_copy (ctx : Option (Nat × Str)) (next : Nat) (t c : INode) (n : Nat) (w : List Nat)
+    (f : List Str)
+    (h : deepCopyIn ctx next t = .ok c n w f) : deepEqual t.erase c.erase = true := by
+  unfold deepCopyIn at h
   split at h
   · cases h
   · injection h with h1
@@ -90,9 +92,10 @@ theorem deepEqualNodes_complete (D : List Str) (hD : dateEquiv D = true) (l r : 
 def Below (next : Nat) (t : INode) : Prop := ∀ i ∈ t.ids, i < next
 
 /-- FULL.  A deep copy shares no node with its source. -/
-theorem copy_fresh (next : Nat) (t c : INode) (n : Nat) (w : List Nat) (f : List Str)
-    (hb : Below next t) (h : deepCopy next t = .ok c n w f) : ∀ i ∈ c.ids, i ∉ t.ids := by
-  unfold deepCopy at h
+theorem copy_fresh (ctx : Option (Nat × Str)) (next : Nat) (t c : INode) (n : Nat) (w : List Nat)
+    (f : List Str)
+    (hb : Below next t) (h : deepCopyIn ctx next t = .ok c n w f) : ∀ i ∈ c.ids, i ∉ t.ids := by
+  unfold deepCopyIn at h
   split at h
   · cases h
   · injection h with h1
@@ -104,10 +107,11 @@ theorem copy_fresh (next : Nat) (t c : INode) (n : Nat) (w : List Nat) (f : List
 
 /-- FULL.  A deep copy has the value of its source, hence serialises to identical GEDCOM at every
     indent (and `NoIndent`). -/
-theorem copy_render (next : Nat) (t c : INode) (n : Nat) (w : List Nat) (f : List Str)
-    (h : deepCopy next t = .ok c n w f) (indent : Option Nat) :
+theorem copy_render (ctx : Option (Nat × Str)) (next : Nat) (t c : INode) (n : Nat) (w : List Nat)
+    (f : List Str)
+    (h : deepCopyIn ctx next t = .ok c n w f) (indent : Option Nat) :
     c.erase = t.erase ∧ render indent c.erase = render indent t.erase := by
-  unfold deepCopy at h
+  unfold deepCopyIn at h
   split at h
   · cases h
   · injection h with h1
@@ -116,9 +120,10 @@ theorem copy_render (next : Nat) (t c : INode) (n : Nat) (w : List Nat) (f : Lis
 
 /-- FULL.  Copying leaves the source untouched: every write of the walk (`AddNode`) goes to an
     object created by the walk. -/
-theorem copy_source_untouched (next : Nat) (t c : INode) (n : Nat) (w : List Nat) (f : List Str)
-    (hb : Below next t) (h : deepCopy next t = .ok c n w f) : ∀ i ∈ w, i ∉ t.ids := by
-  unfold deepCopy at h
+theorem copy_source_untouched (ctx : Option (Nat × Str)) (next : Nat) (t c : INode) (n : Nat) (w : List Nat)
+    (f : List Str)
+    (hb : Below next t) (h : deepCopyIn ctx next t = .ok c n w f) : ∀ i ∈ w, i ∉ t.ids := by
+  unfold deepCopyIn at h
   split at h
   · cases h
   · injection h with _ _ h3
@@ -131,12 +136,107 @@ theorem copy_source_untouched (next : Nat) (t c : INode) (n : Nat) (w : List Nat
 /-- FULL.  Changing either never changes the other: a mutation (`AddNode`, `DeleteNode`,
     `SetNodes`) of any object of the copy leaves the source — hence its GEDCOM — as it was, and a
     mutation of any object of the source leaves the copy as it was. -/
-theorem copy_frame (next : Nat) (t c : INode) (n : Nat) (w : List Nat) (f : List Str)
-    (hb : Below next t) (h : deepCopy next t = .ok c n w f) (m : Mut) :
+theorem copy_frame (ctx : Option (Nat × Str)) (next : Nat) (t c : INode) (n : Nat) (w : List Nat)
+    (f : List Str)
+    (hb : Below next t) (h : deepCopyIn ctx next t = .ok c n w f) (m : Mut) :
     (m.target ∈ c.ids → applyMut m t = t) ∧ (m.target ∈ t.ids → applyMut m c = c) := by
-  have hf := copy_fresh next t c n w f hb h
+  have hf := copy_fresh ctx next t c n w f hb h
   exact ⟨fun hc => applyMut_of_not_mem m t (hf _ hc),
     fun ht => applyMut_of_not_mem m c (fun hc => hf _ hc ht)⟩
+
+/-! ## the documents involved (round 2) -/
+
+/-- `deepCopy` of Model/Ident.lean is the case "no family outside the tree" -/
+theorem deepCopy_eq (next : Nat) (t : INode) : deepCopy next t = deepCopyIn none next t := rfl
+
+/-- FULL.  After the repair a copy never fails when the role nodes that are not below a FAM node
+    have a family to belong to (they always do: HUSB / WIFE / CHIL nodes cannot be constructed
+    without one) — in particular a HUSB / WIFE / CHIL node can be the root of the copy. -/
+theorem copy_total (fi : Nat) (fp : Str) (next : Nat) (t : INode) :
+    ∃ c n w f, deepCopyIn (some (fi, fp)) next t = .ok c n w f := by
+  obtain ⟨r, hr, _⟩ := famWalk_isSome (some (fi, fp)) [] t rfl
+  unfold deepCopyIn
+  rw [hr]
+  exact ⟨_, _, _, _, rfl⟩
+
+/-- FULL.  What the copy asks the destination document for: `document.AddFamily(pointer)` exactly
+    once per distinct source family that a role node of the walk belongs to, in the order they are
+    first met, and nothing else: `f` lists the pointers, `ids` the source families. -/
+theorem copy_families (ctx : Option (Nat × Str)) (next : Nat) (t c : INode) (n : Nat)
+    (w : List Nat) (f : List Str) (h : deepCopyIn ctx next t = .ok c n w f) :
+    f = (firstNew [] (famsUsed ctx t).2).2 ∧
+    ∃ ids : List Nat, ids.Nodup ∧ ids.length = f.length ∧
+      ∀ g, g ∈ ids ↔ g ∈ (famsUsed ctx t).2.map (·.1) := by
+  unfold deepCopyIn at h
+  split at h
+  · cases h
+  · rename_i fam' seen' adds hw
+    injection h with _ _ _ h4
+    have sp := (famWalk_spec ctx [] t fam' seen' adds hw).2
+    have e1 : seen' = (firstNew [] (famsUsed ctx t).2).1 := congrArg Prod.fst sp
+    have e2 : adds = (firstNew [] (famsUsed ctx t).2).2 := congrArg Prod.snd sp
+    refine ⟨by rw [← h4, e2], seen', ?_, ?_, ?_⟩
+    · rw [e1]; exact firstNew_nodup [] _ List.nodup_nil
+    · obtain ⟨new, hn, hl⟩ := firstNew_shape [] (famsUsed ctx t).2
+      rw [← h4, e1, e2, hn]; simpa using hl
+    · intro g; rw [e1, firstNew_mem]; simp
+
+/-- FULL.  Effect on the destination document: it is the old record list followed by one empty
+    FAM record (no value, no children, the source family's pointer) per `AddFamily` call, each a
+    new object; nothing is removed, reordered or rewritten.  The source document is not an
+    argument of the walk at all.  When source and destination are the SAME document this means:
+    the source record is still in place and unchanged (so is every other record), no node is
+    shared — but the document has gained those empty FAM records (`same_doc_redirected`). -/
+theorem copy_doc_effect (ctx : Option (Nat × Str)) (dst : Doc) (next : Nat) (t : INode)
+    (r : CopyDocResult) (h : copyIntoDoc ctx dst next t = some r) :
+    ∃ fams : List INode, r.doc = dst ++ fams ∧ fams.map (·.ptr) = r.famAdds ∧
+      (∀ x ∈ fams, x.tag = tagFAM ∧ x.value = [] ∧ x.kids = []) ∧
+      (∀ x ∈ fams, next ≤ x.id ∧ x.id ∉ r.copy.ids) ∧ (fams.map (·.id)).Nodup ∧
+      r.doc.take dst.length = dst := by
+  unfold copyIntoDoc at h
+  split at h
+  · cases h
+  · rename_i c nx w adds hc
+    injection h with h
+    obtain ⟨h1, h2, h3, h4⟩ := newFams_spec nx adds
+    refine ⟨(newFams nx adds).1, by rw [← h], by rw [← h]; exact h2, h4, ?_, ?_, by rw [← h]; simp⟩
+    · intro x hx
+      have hid : x.id ∈ List.range' nx adds.length := h3 ▸ List.mem_map_of_mem (f := (·.id)) hx
+      have hge := (List.mem_range'_1.mp hid).1
+      unfold deepCopyIn at hc
+      split at hc
+      · cases hc
+      · injection hc with hc1 hc2
+        have hi := copyTree_ids next t
+        rw [← h]
+        simp only
+        refine ⟨by omega, fun hm => ?_⟩
+        rw [← hc1] at hm
+        have := (hi.2.1 _ hm).2
+        omega
+    · rw [h3]; exact List.nodup_range'
+
+/-- FULL.  Copying into the document the source lives in redirects `NodeByPointer(p)` for every
+    pointer `p` passed to `AddFamily`: the lookup now finds one of the new, empty FAM records
+    (an object that did not exist before), not the source family. -/
+theorem same_doc_redirected (ctx : Option (Nat × Str)) (dst : Doc) (next : Nat) (t : INode)
+    (r : CopyDocResult) (h : copyIntoDoc ctx dst next t = some r) (p : Str) (hp : p ∈ r.famAdds) :
+    ∃ i, r.doc.lookup p = some i ∧ next ≤ i := by
+  obtain ⟨fams, hd, hptr, _, hfresh, _, _⟩ := copy_doc_effect ctx dst next t r h
+  have hex : ∃ x ∈ fams, x.ptr = p := by
+    rw [← hptr] at hp
+    obtain ⟨x, hx, e⟩ := List.mem_map.mp hp
+    exact ⟨x, hx, e⟩
+  obtain ⟨x, hx, hxp⟩ := hex
+  unfold Doc.lookup
+  rw [hd, List.reverse_append, List.find?_append]
+  cases hf : fams.reverse.find? (fun r => r.ptr == p) with
+  | none =>
+    have := List.find?_eq_none.mp hf x (List.mem_reverse.mpr hx)
+    simp [hxp] at this
+  | some y =>
+    have hy := List.mem_reverse.mp (List.mem_of_find?_eq_some hf)
+    exact ⟨y.id, by simp, (hfresh y hy).1⟩
 
 /-! ## non-vacuity (tests on literals) -/
 
@@ -159,8 +259,17 @@ example : ∃ c n w f, deepCopy 3 (labelNode 0 ex).1 = .ok c n w f ∧ c.ids = [
     (applyMut (.clear 3) c).kids.length = 0 ∧ c.kids.length = 2 ∧ Below 3 (labelNode 0 ex).1 := by
   refine ⟨_, _, _, _, rfl, by decide, by decide, by decide, ?_⟩
   unfold Below; decide
-/-- the failure branch of the copy exists: HUSB outside any family -/
-example : deepCopy 1 (.mk 0 (lit "HUSB") (lit "@I1@") [] []) = .panic := by rfl
+/-- a HUSB node copied on its own: its family (object 7, pointer F1) lies outside the tree; the
+    copy succeeds and asks the destination for one family F1 -/
+example : ∃ c n w, deepCopyIn (some (7, lit "F1")) 1 (.mk 0 (lit "HUSB") (lit "@I1@") [] []) =
+    .ok c n w [lit "F1"] := ⟨_, _, _, rfl⟩
+/-- a FAM record with two role nodes copied into a document that already holds it: one empty FAM
+    is appended and the pointer now resolves to it (object 6) instead of the source (object 0) -/
+example :
+    let fam : INode := .mk 0 (lit "FAM") [] (lit "F1")
+      [.mk 1 (lit "HUSB") (lit "@I1@") [] [], .mk 2 (lit "WIFE") (lit "@I2@") [] []]
+    (copyIntoDoc none [fam] 3 fam).map (fun r => (r.doc.length, r.famAdds.length, r.doc.lookup (lit "F1"))) =
+      some (2, 1, some 6) ∧ Doc.lookup [fam] (lit "F1") = some 0 := by decide
 
 /-! ## counterexamples to the unguarded statements (known finding: non-transitive sibling
     equality), replayed on the implementation by the harness -/
